@@ -307,7 +307,7 @@ def join(lines):
 def outcome(schema, text):
     got = loadcheck.real_load(schema, text, url=MAIN)
     if got[0] == "ok":
-        return ("ok", digest.digest(got[1]))
+        return ("ok", digest.digest(got[1]), got[1])
     if got[0] == "reject":
         return ("reject",)
     return ("internal", type(got[1]).__name__, got[2])
@@ -325,7 +325,12 @@ def compare(schema, text, rewritten):
         d = digest.first_diff(a[1], b[1])
         if d:
             out.append(("layout-changes-tree", d))
-    return a, b, out
+        else:
+            # the same values, item by item -- and to the application's own comparison?
+            d = digest.unequal_plain_values(a[2], b[2])
+            if d:
+                out.append(("layout-changes-tree:values-compare-unequal", d))
+    return a[:2], b[:2], out
 
 
 _FIXED = {}
